@@ -1,10 +1,169 @@
-(* Props/C11.v — path finding and metrics: the property theorems. *)
-From Coq Require Import List ZArith Bool Arith.
-From Koala Require Import Model.AStar Proofs.AStarFacts.
+(* Props/C11.v — path finding returns valid (and when asked shortest) paths; metrics are metrics.
+   Only the property theorems; proofs are in Proofs/AStarFacts.v, ChainFlipFacts.v, MetricFacts.v.
+
+   NOT covered by a theorem here (S/K only, see harness/c11.py): that the adjacency providers
+   (graph_utils.adjacent_plaquettes / vertex_neighbours) list exactly the neighbours through shared edges
+   (C02's tables; checked on every returned path from the lattice's own edge tables), float rounding of
+   the cost additions and sqrt (the model adds exactly; metrics are about squared distances). *)
+From Coq Require Import List ZArith QArith Bool Arith.
+From Koala Require Import Model.AStar Model.Metric Model.FluxSolver
+     Proofs.AStarFacts Proofs.ChainFlipFacts Proofs.MetricFacts.
 Import ListNotations.
 
-(* clause "including start==goal": the path is ([start], []) *)
+(* ---- clause "a valid chain": forward-pass invariant, for every budget and both stopping modes:
+   a returned came_from records the goal; every recorded node other than start has a recorded parent of which
+   it is a neighbour through the recorded edge; parent pointers are acyclic (as_cf_inv); cost_so_far[current]
+   never raises KeyError.  Hypothesis: the heuristic is >= 0 on graph edges and > 0 between distinct
+   adjacent nodes (distinct centres). *)
+Theorem C11_forward_invariant :
+  forall (adj : nat -> list (nat * nat)) (h : nat -> nat -> Z) (start goal : nat) (early : bool),
+    (forall a b e, In (b, e) (adj a) -> (0 <= h a b)%Z /\ (a <> b -> (0 < h a b)%Z)) ->
+    forall maxits,
+      match as_forward adj h start goal early maxits with
+      | AS_Found cf _ _ => as_cf_inv adj start cf /\ as_lookup goal cf <> None
+      | AS_NotFound _ => True
+      | AS_Err => False
+      end.
+Proof. exact as_forward_invariant. Qed.
+Print Assumptions C11_forward_invariant.
+
+(* ---- clause "valid chain: ends are the requested start and goal, consecutive nodes joined by the listed edge,
+   one edge per step", plus no node repeated: the backward pass on any came_from satisfying the invariant
+   terminates without KeyError and returns nodes = [goal; ...; start] (the order the code uses) *)
+Theorem C11_backward_valid_chain :
+  forall (adj : nat -> list (nat * nat)) (start goal : nat) (cf : list (nat * option (nat * nat))),
+    as_cf_inv adj start cf -> (as_lookup goal cf <> None \/ goal = start) ->
+    exists ns es, as_backward cf start goal = Some (ns, es) /\
+      hd_error ns = Some goal /\ last ns goal = start /\ S (length es) = length ns
+      /\ as_chain adj ns es /\ NoDup ns.
+Proof. exact as_backward_valid_chain. Qed.
+Print Assumptions C11_backward_valid_chain.
+
+(* ---- both passes composed (path_between_plaquettes / path_between_vertices): for every budget and both
+   stopping modes the result is PathFindingError or a valid simple chain; no other exception *)
+Theorem C11_path_valid :
+  forall (adj : nat -> list (nat * nat)) (h : nat -> nat -> Z) (start goal : nat) (early : bool),
+    (forall a b e, In (b, e) (adj a) -> (0 <= h a b)%Z /\ (a <> b -> (0 < h a b)%Z)) ->
+    forall maxits,
+      match as_path adj h start goal early maxits with
+      | AS_Path ns es _ => as_valid_chain adj start goal ns es
+      | AS_PathFindingError _ => True
+      | AS_Crash => False
+      end.
+Proof. exact as_path_valid. Qed.
+Print Assumptions C11_path_valid.
+
+(* ---- clause "including start == goal": the path is ([start], []) for every positive budget *)
 Theorem C11_start_eq_goal :
   forall adj h s early n, as_path adj h s s early (S n) = AS_Path [s] [] None.
 Proof. exact as_path_start_eq_goal. Qed.
 Print Assumptions C11_start_eq_goal.
+
+(* ---- the proved chain checker that the harness runs on the implementation's outputs *)
+Theorem C11_valid_path_sound :
+  forall joined start goal ns es,
+    as_valid_path joined start goal ns es = true ->
+    hd_error ns = Some goal /\ last ns goal = start /\ S (length es) = length ns /\ NoDup ns /\
+    forall i, (i < length es)%nat -> joined (nth i es 0%nat) (nth i ns 0%nat) (nth (S i) ns 0%nat) = true.
+Proof. exact as_valid_path_sound. Qed.
+Print Assumptions C11_valid_path_sound.
+
+(* ---- clause "flipping the bonds on a plaquette path changes exactly the fluxes of its two end plaquettes".
+   Flux of p = product over its (edge, direction) entries of f(u_e, d) for any f odd in u (both flux conventions
+   of flux_finder.py are instances); hypothesis Hwf: a plaquette contains an edge exactly as often as
+   edges.adjacent_plaquettes lists it as a side of that edge; the chain is valid and simple w.r.t. that table.
+   Then the flux of q is multiplied by (-1)^([q = goal] + [q = start]). *)
+Theorem C11_path_flip_two_ends :
+  forall (f : Z -> Z -> Z), (forall x d, f (- x)%Z d = (- f x d)%Z) ->
+  forall (P : list fs_plaq) (ep : list (option nat * option nat)),
+    (forall e q, (e < length ep)%nat -> (q < length P)%nat -> fs_count_edge (nth q P []) e = fs_sides ep e q) ->
+    forall start goal ns es u q,
+      as_valid_path (as_joined ep) start goal ns es = true -> (q < length P)%nat ->
+      fs_gprod f (fs_neg_set es u) (nth q P [])
+      = (fs_sgn (fs_b2n (goal =? q)%nat + fs_b2n (start =? q)%nat) * fs_gprod f u (nth q P []))%Z.
+Proof. exact fs_path_flip_two_ends. Qed.
+Print Assumptions C11_path_flip_two_ends.
+
+(* the same for fluxes_from_ujk, spelled out: start <> goal: the two ends change sign, nothing else changes *)
+Theorem C11_path_flip_two_ends_ujk :
+  forall (P : list fs_plaq) (ep : list (option nat * option nat)),
+    (forall e q, (e < length ep)%nat -> (q < length P)%nat -> fs_count_edge (nth q P []) e = fs_sides ep e q) ->
+    forall start goal ns es u q,
+      as_valid_path (as_joined ep) start goal ns es = true -> (q < length P)%nat -> start <> goal ->
+      fs_flux_ujk (fs_neg_set es u) (nth q P [])
+      = (if (q =? start)%nat || (q =? goal)%nat then - fs_flux_ujk u (nth q P []) else fs_flux_ujk u (nth q P []))%Z.
+Proof. exact fs_path_flip_two_ends_ujk. Qed.
+Print Assumptions C11_path_flip_two_ends_ujk.
+
+(* ---- clause "the two offered metrics are ... (symmetric, non-negative, zero only for coincident points,
+   never longer than the Euclidean one)".  Squared distances over Q; sqrt is monotone and outside the model. *)
+Theorem C11_euclid_sym : forall a b, mt_euclid_sq a b == mt_euclid_sq b a.
+Proof. exact mt_euclid_sym. Qed.
+Print Assumptions C11_euclid_sym.
+Theorem C11_euclid_nonneg : forall a b, 0 <= mt_euclid_sq a b.
+Proof. exact mt_euclid_nonneg. Qed.
+Print Assumptions C11_euclid_nonneg.
+Theorem C11_euclid_zero_iff : forall a b, mt_euclid_sq a b == 0 <-> (fst a == fst b /\ snd a == snd b).
+Proof. exact mt_euclid_zero_iff. Qed.
+Print Assumptions C11_euclid_zero_iff.
+(* triangle inequality sqrt z <= sqrt x + sqrt y in squared form *)
+Theorem C11_euclid_triangle : forall a b c,
+  let x := mt_euclid_sq a b in let y := mt_euclid_sq b c in let z := mt_euclid_sq a c in
+  z <= x + y \/ (z - x - y) * (z - x - y) <= 4 * x * y.
+Proof. exact mt_euclid_triangle_sq. Qed.
+Print Assumptions C11_euclid_triangle.
+
+(* the periodic metric AS CODED (pathfinding.py:79-85, after fix bc5f751) *)
+Theorem C11_periodic_sym : forall a b, mt_periodic_sq a b == mt_periodic_sq b a.
+Proof. exact mt_periodic_sym. Qed.
+Print Assumptions C11_periodic_sym.
+Theorem C11_periodic_nonneg : forall a b, 0 <= mt_periodic_sq a b.
+Proof. exact mt_periodic_nonneg. Qed.
+Print Assumptions C11_periodic_nonneg.
+Theorem C11_periodic_zero_iff : forall a b, mt_in_unit a -> mt_in_unit b ->
+  (mt_periodic_sq a b == 0 <-> (fst a == fst b /\ snd a == snd b)).
+Proof. exact mt_periodic_zero_iff. Qed.
+Print Assumptions C11_periodic_zero_iff.
+Theorem C11_periodic_le_euclid : forall a b, mt_periodic_sq a b <= mt_euclid_sq a b.
+Proof. exact mt_periodic_le_euclid. Qed.
+Print Assumptions C11_periodic_le_euclid.
+(* "minimum-image": per coordinate no integer shift of b gives a shorter difference (points in [0,1)) *)
+Theorem C11_periodic_min_image : forall x y (k : Z), 0 <= x -> x < 1 -> 0 <= y -> y < 1 ->
+  mt_wrap (x - y) * mt_wrap (x - y) <= (x - y + inject_Z k) * (x - y + inject_Z k).
+Proof. exact mt_wrap_sq_min_image. Qed.
+Print Assumptions C11_periodic_min_image.
+
+(* ---- clause "always found when the iteration budget is at least the number of edges".
+   FALSE of the faithful model for a full search (early_stopping=False) on a tree: the path graph 0 - 1 - 2 has
+   2 edges, the goal is popped in the 3rd iteration.  With early stopping (the mode the flux solver uses) the
+   same budget is enough.  Replayed on /repo: path_between_vertices on a 3-vertex chain raises PathFindingError
+   (harness/c11.py, out-of-domain probe; such lattices have no plaquettes and are outside the quantified families). *)
+Theorem C11_budget_n_edges_full_search_refuted :
+  exists (adj : nat -> list (nat * nat)) (h : nat -> nat -> Z) (n_edges : nat),
+    adj = (fun n => match n with 0 => [(1, 0)] | 1 => [(0, 0); (2, 1)] | 2 => [(1, 1)] | _ => [] end)%nat /\
+    n_edges = 2%nat /\
+    (forall a b e, In (b, e) (adj a) -> (0 <= h a b)%Z /\ (a <> b -> (0 < h a b)%Z)) /\
+    (exists m, as_path adj h 0 2 false n_edges = AS_PathFindingError m) /\
+    (exists m, as_path adj h 0 2 false (S n_edges) = AS_Path [2; 1; 0]%nat [1; 0]%nat m) /\
+    (exists m, as_path adj h 0 2 true n_edges = AS_Path [2; 1; 0]%nat [1; 0]%nat m).
+Proof. exact as_budget_refuted. Qed.
+Print Assumptions C11_budget_n_edges_full_search_refuted.
+
+(* ---- non-vacuity: the hypotheses are satisfiable on concrete instances *)
+Example C11_path_nonvacuous :
+  let adj := (fun n => match n with
+                       | 0 => [(1, 0); (2, 2)] | 1 => [(0, 0); (2, 1); (3, 3)]
+                       | 2 => [(1, 1); (0, 2); (3, 4)] | 3 => [(1, 3); (2, 4)] | _ => [] end)%nat in
+  let h := (fun a b => if (a =? b)%nat then 0 else 3 + Z.of_nat (a + b))%Z in
+  (forall a b e, In (b, e) (adj a) -> (0 <= h a b)%Z /\ (a <> b -> (0 < h a b)%Z)) /\
+  as_path adj h 0 3 false 5 = AS_Path [3; 1; 0]%nat [3; 0]%nat (Some 2%Z) /\
+  as_path adj h 0 3 true 5 = AS_Path [3; 1; 0]%nat [3; 0]%nat (Some 2%Z).
+Proof. exact as_path_example. Qed.
+
+(* two triangles sharing edge 2: plaquette 0 = edges 0,1,2; plaquette 1 = edges 2,3,4 *)
+Example C11_flip_nonvacuous :
+  let P := [[(0%nat, 1%Z); (1%nat, 1%Z); (2%nat, 1%Z)]; [(2%nat, (-1)%Z); (3%nat, 1%Z); (4%nat, 1%Z)]] in
+  let ep := [(Some 0, None); (Some 0, None); (Some 0, Some 1); (Some 1, None); (Some 1, None)]%nat in
+  (forall e q, (e < length ep)%nat -> (q < length P)%nat -> fs_count_edge (nth q P []) e = fs_sides ep e q) /\
+  as_valid_path (as_joined ep) 0 1 [1; 0]%nat [2]%nat = true.
+Proof. exact fs_flip_example. Qed.
